@@ -4,7 +4,7 @@
    inversion lemma per parser function for strict = true, where optional_error never returns. *)
 From Coq Require Import Arith.
 From AV Require Import Base.Bytes Base.Outcome Base.Utf8 Base.Radix Hash.HashModel Spec.SpecOps Spec.Versions
-  Xml.Lexer Xml.Parser Xml.LexerProofs Xml.TablesOk Xml.ParserCheck Xml.ParserDepth Xml.StrictValidDef Xml.StrictValidSpec.
+  Xml.Lexer Xml.Parser Xml.LexerProofs Xml.TablesOk Xml.Funnel Xml.FunnelParser Xml.ParserCheck Xml.ParserDepth Xml.StrictValidDef Xml.StrictValidSpec.
 Open Scope list_scope.
 Open Scope N_scope.
 
@@ -488,6 +488,18 @@ Proof.
   destruct (next (p_lex s10)) as [[line ev l'|line er]| |]; try discriminate E11.
   destruct ev; try (destruct (oe_strict_ret _ _ _ _ _ _ E11)).
   injection E11 as _ <-. cbn [p_lex set_lex]. destruct SP as (_ & _ & EOFC & _). exact EOFC.
+Qed.
+
+(* the same for a lenient load that collected no warning (C08_agree: it is a strict load) *)
+Corollary load_lenient_clean_valid bs t st :
+  load false T tab_el tab_at tab_en check_fn float_parse bs = Val (Ret t st) -> p_warnings st = [] ->
+  exists v401 name ty attrs content comment,
+    version_of_ident "Autosar_4_0_1" = Some v401 /\ t = ENode name ty attrs content comment /\
+    attrs_valid T check_fn v401 ty attrs /\
+    children_ok T check_fn (p_version st) ty [] [] content /\ shortname_ok T (p_version st) ty content.
+Proof.
+  intros H W. destruct (load_agree T tab_el tab_at tab_en check_fn float_parse bs) as (A & _).
+  apply (load_strict_valid bs). apply A; assumption.
 Qed.
 
 End SV.
